@@ -272,6 +272,7 @@ pub fn oracle(c: &SignCase, cx: &mut CaseCtx) -> Result<(), String> {
     cx.class_if(used.iter().any(|s| s.der_form % 3 == 2), "ring_template_key");
     cx.class_if(used.iter().any(|s| s.der_form % 3 == 1), "pkcs8_v2_key");
     cx.class_if(c.unsigned.is_some(), "with_unsigned");
+    cx.class_if(used.iter().any(|s| !s.version.chars().all(|ch| ch.is_ascii_alphanumeric() || ch == '_')), "key_version_with_other_characters");
     let mut nontrivial = nsig >= 2 && nested;
 
     // tampering
@@ -547,7 +548,7 @@ fn no_panic_verify(pk: &[u8], sig: &[u8], msg: &[u8]) -> Result<bool, String> {
 }
 
 pub fn signer() -> impl Strategy<Value = Signer> {
-    (prop_oneof![3 => idgen::server_name().boxed(), 1 => "[a-zA-Z0-9@:._ é-]{1,12}".boxed()], "[A-Za-z0-9_]{1,8}", any::<[u8; 32]>(), 0u8..3).prop_map(|(entity, version, seed, der_form)| Signer { entity, version, seed, der_form })
+    (prop_oneof![3 => idgen::server_name().boxed(), 1 => "[a-zA-Z0-9@:._ é-]{1,12}".boxed()], prop_oneof![3 => "[A-Za-z0-9_]{1,8}".boxed(), 1 => "[A-Za-z0-9_.:+ /=é-]{1,8}".boxed()], any::<[u8; 32]>(), 0u8..3).prop_map(|(entity, version, seed, der_form)| Signer { entity, version, seed, der_form })
 }
 
 fn object() -> impl Strategy<Value = BTreeMap<String, V>> {
@@ -600,7 +601,7 @@ pub fn run(ck: &mut Check) {
         },
         oracle,
     );
-    for cls in ["multi_signature", "ring_template_key", "pkcs8_v2_key", "with_unsigned", "tamper_signature_bit", "tamper_key_bit", "tamper_signed_content", "neutral_unsigned_changed", "tamper_key_missing", "tamper_entity_without_keys", "tamper_partial_key_map", "tamper_only_unsupported_signature", "signed_json_larger_than_65535_bytes", "signed_json_at_event_size_limit"] {
+    for cls in ["multi_signature", "ring_template_key", "pkcs8_v2_key", "with_unsigned", "tamper_signature_bit", "tamper_key_bit", "tamper_signed_content", "neutral_unsigned_changed", "tamper_key_missing", "key_version_with_other_characters", "tamper_entity_without_keys", "tamper_partial_key_map", "tamper_only_unsupported_signature", "signed_json_larger_than_65535_bytes", "signed_json_at_event_size_limit"] {
         ck.floor("sign_verify_histories", cls, 100);
     }
     let n = ck.n(4_000, 100_000);
